@@ -102,6 +102,18 @@ func init() {
 				coll := model2d.MeshToCollider(quad)
 				rec.Names = append(rec.Names, "collider")
 				rec.Diffs = append(rec.Diffs, imgDiff(r.RasterizeSolid(model2d.NewColliderSolid(coll)), r.RasterizeColliderSolid(coll)))
+				// the same outline as a line drawing, at the scene's own scale and blown up so that one
+				// pixel spans many model units (Scale < 1); the line's half width is given in pixels
+				lw := 1 + 3*rng.Float64()
+				rl := &model2d.Rasterizer{Scale: r.Scale, Bounds: bounds, LineWidth: lw}
+				rec.Names = append(rec.Names, "line")
+				rec.Diffs = append(rec.Diffs, imgDiff(rl.RasterizeSolid(model2d.NewColliderSolidHollow(coll, 0.5*lw/rl.Scale)), rl.RasterizeCollider(coll)))
+				k := 8 + 60*rng.Float64()
+				big := quad.Scale(k)
+				bigColl := model2d.MeshToCollider(big)
+				rb := &model2d.Rasterizer{Scale: r.Scale / k, Bounds: model2d.NewRect(bounds.MinVal.Scale(k), bounds.MaxVal.Scale(k)), LineWidth: lw}
+				rec.Names = append(rec.Names, "line-coarse")
+				rec.Diffs = append(rec.Diffs, imgDiff(rb.RasterizeSolid(model2d.NewColliderSolidHollow(bigColl, 0.5*lw/rb.Scale)), rb.RasterizeCollider(bigColl)))
 			})
 			out.write(rec)
 			stats["records"]++
